@@ -22,7 +22,8 @@ META = {
              "GetByIndex / the ExpiredAt filter answer alike on every history, ordered reads are sorted, reload preserves the index — are "
              "TESTED (correspondence + the expiry oracle over implementation replies), not proved; that the handlers apply the predicates as modelled (index build and maintenance, "
              "claim walks, patch metadata) is validated by the correspondence run, not proved. Expiries of different keys are kept "
-             "distinct (the index sort is unstable). Timing: past expiries may be arbitrarily close to the case base (requests run after it), future ones are >= 120 s away and every case ends with a real-time bracket (`within 60000`: answered `hang slow` on a machine too slow, which makes /verif/check re-run the case alone); the one expiry that passes during a case is bracketed by `within 2800` before and a wait that ends after it."),
+             "distinct (the index sort is unstable). Timing: past expiries may be arbitrarily close to the case base (requests run after it), future ones are >= 120 s away and every case ends with a real-time bracket (`within 60000`: answered `hang slow` on a machine too slow, which makes /verif/check re-run the case alone); the one expiry that passes during a case is bracketed by `within 2800` before and a wait that ends after it. "
+             "NOT COVERED: Holds is a list of per-site equalities (IsExpired, ShiftExpired, SelectExpiredForPatchWithCap, five index-membership guards, the `<` filter, IS_EMPTY, SetExpirationTime, clear-over-set, wire) — of the filter operators only `ExpiredAt < ref` is in a theorem (le / gt / ge / ne / empty / notempty are exercised by fexp requests); there is no clause and no test for the claim re-validation under the record guard (swamp.go, shift of a record whose expiry moved between selection and claim), the ShiftMatching window or findTimeRangeBounds."),
     "design_ref": "§8 C30",
 }
 
